@@ -28,6 +28,8 @@ def enc(x):
         return str(x)
     if isinstance(x, float) and x != x:
         return {'nan': 1}
+    if isinstance(x, type) and x.__module__ == 'numpy':
+        return {'nptype': x.__name__}
     return x
 
 
@@ -41,6 +43,8 @@ def dec(j):
             return [dec(v) for v in j['u']]
         if 'nan' in j:
             return float('nan')
+        if 'nptype' in j:
+            return getattr(np, j['nptype'])
         raise ValueError(j)
     return j
 
